@@ -549,6 +549,15 @@ func findChecks(c *Case, ms *yang.Modules, obs map[string]map[string]*Observed) 
 			}
 		}
 	}
+	// a submodule has an entry tree of its own (ToEntry of the submodule: what its text alone defines); a lookup
+	// that starts there, under the belongs-to prefix or an import of the submodule, lands in the MODULE's tree
+	for _, n := range names {
+		if c.Prog.Mods[n].Kind == "submodule" && ms.SubModules[n] != nil {
+			if se := yang.ToEntry(ms.SubModules[n]); se != nil {
+				starts = append(starts, start{n + ":root (the submodule's own tree)", se, n})
+			}
+		}
+	}
 	// the input / output of an rpc or action that has neither statement is a node too
 	for _, n := range names {
 		if c.Prog.Mods[n].Kind != "module" {
@@ -762,6 +771,9 @@ func init() {
 		directionB(r, "C06", true)
 		// which grouping a uses names may change between two runs over one set (a newer revision of its module arrives)
 		SessionHistories(r, "C06", "ib")
+		// type names inside a grouping resolve in the scope where the grouping is defined: random scope structures
+		// (groupings and their siblings with same-named typedefs of their own), judged by TypesTrace / TypesG
+		TypeScopes(r)
 	}
 	core.Checks["C17"] = func(r *core.Run) {
 		r.Rule = "A: on every clean outcome of the augment space (and the uses / config spaces in the thorough tier): for every node of every module tree, Find of its absolute prefixed path from the module's own root, from the root of every importing module (with that module's prefix) and from a deep node of each, compared by pointer identity; the relative ../ path between every pair of nodes up to depth 3; and every absolute path with an absent step appended or substituted must return nothing. Non-trivial = every case."
@@ -879,6 +891,7 @@ var (
 	C13Identities = func(r *core.Run) {}
 	C05Types      = func(r *core.Run) {}
 	C05Identities = func(r *core.Run) {}
+	TypeScopes    = func(r *core.Run) {}
 )
 
 func init() {
